@@ -6,6 +6,8 @@ import (
 	"go/token"
 	"go/types"
 	"os"
+	"runtime/debug"
+	"strings"
 
 	"golang.org/x/tools/go/ssa"
 )
@@ -164,8 +166,11 @@ func (in *Interp) ensureInit(pkg *ssa.Package) {
 				if in.cfg.Trace {
 					fmt.Fprintf(os.Stderr, "init %s panicked: %s\n", pkg.Pkg.Path(), r.msg)
 				}
-			default:
+			case pathEnd, threadKill:
 				panic(r)
+			default:
+				// host-level crash inside a lenient initialiser: the initialiser stops, globals stay as they are
+				in.stubLog["engine:initialiser of "+pkg.Pkg.Path()+" stopped early"]++
 			}
 		}
 	}()
@@ -244,6 +249,13 @@ func (in *Interp) callFunction(fn *ssa.Function, args []Value, fv []Value, g *Te
 						th.frame = f
 						ea.where = in.where() + " | " + in.stack()
 					}
+					switch r.(type) {
+					case *EngineAbort, pathEnd, *deadlockErr, threadKill, *goroutineCrash:
+					default:
+						// a host-level crash inside the engine: keep the innermost stack
+						th.frame = f
+						r = &EngineAbort{msg: fmt.Sprintf("engine crash: %v\n%s", r, hostStack()), where: in.where() + " | " + in.stack()}
+					}
 					panic(r)
 				}
 			}
@@ -266,6 +278,21 @@ func (in *Interp) callFunction(fn *ssa.Function, args []Value, fv []Value, g *Te
 		}
 	}
 	return in.mergeRets(f)
+}
+
+// hostStack returns the engine frames of the current (panicking) goroutine, trimmed.
+func hostStack() string {
+	lines := strings.Split(string(debug.Stack()), "\n")
+	var out []string
+	for i := 0; i+1 < len(lines); i++ {
+		if strings.HasPrefix(lines[i], "main.") && !strings.Contains(lines[i], "callFunction") && !strings.Contains(lines[i], "hostStack") {
+			out = append(out, strings.TrimSpace(lines[i])+" "+strings.TrimSpace(lines[i+1]))
+			if len(out) >= 10 {
+				break
+			}
+		}
+	}
+	return strings.Join(out, "\n")
 }
 
 func firstUnion(args []Value) (*Union, bool) {
@@ -739,6 +766,18 @@ func (in *Interp) panicMsg(x Value) string {
 var errorIface = types.Universe.Lookup("error").Type().Underlying().(*types.Interface)
 
 func (in *Interp) runDefers(f *Frame) {
+	// In merged mode every return block runs the deferred calls under its own guard; the list is
+	// only consumed when this block's guard is certain.
+	if f.panicking == nil && !(f.cur.IsTrue() || in.isKnown(f.cur)) {
+		saved := append([]deferRec(nil), f.defers...)
+		entry := f.cur
+		defer func() {
+			f.defers = saved
+			if !f.cur.IsFalse() {
+				f.cur = entry
+			}
+		}()
+	}
 	for len(f.defers) > 0 {
 		d := f.defers[len(f.defers)-1]
 		f.defers = f.defers[:len(f.defers)-1]
@@ -790,6 +829,9 @@ func (in *Interp) call(fnv Value, args []Value, g *Term, cc *ssa.CallCommon) Val
 				in.withGuard(gg, func() { in.rtCheck(in.ts.True, "invalid memory address or nil pointer dereference (nil interface method call "+cc.Method.Name()+")") })
 				return in.zeroResults(cc.Signature())
 			}
+			if rt, isRefl := itf.t.(*reflType); isRefl {
+				return in.reflInvoke(rt, cc.Method.Name(), args, cc)
+			}
 			if _, isNoop := itf.t.(*noopType); isNoop {
 				in.stubLog["noop-object:"+cc.Method.Name()]++
 				return in.noopResults(cc.Signature(), args)
@@ -838,7 +880,12 @@ func (in *Interp) withGuard(g *Term, fn func()) {
 	}
 	saved := f.cur
 	f.cur = g
-	defer func() { f.cur = saved }()
+	defer func() {
+		if f.cur.IsFalse() && g == saved {
+			return // the whole block guard was decided false inside fn: the block is dead
+		}
+		f.cur = saved
+	}()
 	fn()
 }
 
